@@ -143,3 +143,15 @@ prop("C20", ["DivanModel.Props.C20"], [lab("paint", 800, 20000), lab("reg", 1000
      level_text="Exact model of tree_painter.rs (prefix, depth, growing column widths, separators and trailing-space rule, all row kinds) compared byte for byte with the real TreePainter on random operation sequences with every combination of counter / max-alloc / tally rows, non-ASCII and over-long names (paint lab), and with the real front end's output for random programs under list/test (exact text) and bench (cells replaced by class tokens) in the registry lab. Theorems: the prefix invariant (three columns per open non-top-level parent, restored by finish_parent, a bar exactly when the opened parent has later siblings, leaves never touch it); painting a tree by the run_tree walk emits exactly one line per node in depth-first order with the glyphs of its true position (each_node_once); the depth-annotated preorder of any forest parses back to it (parse_render).",
      level_note="Trusted: Lean kernel; labs. The serialised cells are produced by the lab from the real formatting functions (C18) and handed to the model; the character-level decoding of a line (glyphs -> depth) and the splitting of a row on ' | ' are not yet theorems (names must be 'clean': no box glyphs / double spaces). F9: under --list a benchmark with args is printed without its argument cases (recorded finding).",
      trusted=REG_TRUST)
+
+POOL_TRUST = ["pool lab: the real util/thread/pool.rs compiled against an instrumented std drop-in (hook H5, feature verif_shim): every atomic / channel / park / unpark / spawn operation is performed and logged under one global lock (a linearisation), with seeded delays around each and injected spurious park returns; what is exercised is divan's use of the primitives, not std's implementation of them"]
+
+prop("C06", ["DivanModel.Props.C06"], [lab("pool", 400, 20000, timeout=900)],
+     level_text="Theorems on a transition system parametric in all counts (any history of broadcasts, any number of workers, every interleaving): the 12-clause protocol invariant and the ghost invariant hold in every reachable state; when the caller reads the count as zero every worker handed the task has finished and decremented, nobody is inside the task block, every index ran exactly once, and - if the decrement is Release and the load Acquire - the end of every call happens-before the return; block reads are guarded by validity; threads are spawned only up to max(m, n) and reused. stepFn (the executable acceptor) is proved sound w.r.t. the relation, so every event log of the real pool that the driver accepts is a run of the verified protocol; atomics' observed values and Orderings are compared on the way. The lab also checks results by index, once-per-index, thread identity and visibility of plain writes on the run itself.",
+     level_note="Trusted: Lean kernel; pool lab and shim; C11 release/acquire as modelled by publication sets; weak-memory behaviours outside that fragment and the real park/unpark implementation are not exercised; interleavings are those the perturbed scheduler produced (the theorems cover all).",
+     trusted=POOL_TRUST)
+
+prop("C07", ["DivanModel.Props.C07"], [lab("pool", 400, 20000, timeout=900)],
+     level_text="Theorems for every history of broadcasts with arbitrary thread counts and every interleaving: every reachable non-final state has an enabled transition (no deadlock, incl. caller blocked sending to a worker still finishing stale work, worker finishing before the caller parks, stale token pending); a parked caller with count zero always has a token or an unpark in flight (no lost wake-up); every step decreases a lexicographic measure, so the step relation on invariant states is well founded (every run terminates, in the final state: all broadcasts done, pool dropped, every worker exited); spurious wake-ups raise the measure by exactly one (single-broadcast model). The pool lab replays real event logs through the sound acceptor, requires the final state, uses a watchdog for hangs and counts exited workers after drop.",
+     level_note="Trusted: as C06. Spurious park returns are accepted by a driver-level extension of the acceptor (the theorem-bearing relation of PoolFull has none; Pool.lean budgets them for one broadcast). process::abort on a double panic is not exercised.",
+     trusted=POOL_TRUST)
